@@ -284,6 +284,25 @@ add("C01", "X-inline-steals-comparison", "fixed",
             Decl("Signal", "wq", Bin("+", Ref("cq"), Num(1)))], [{"in3": -2147483647}, {"in3": 5}]), commit="2318b67")
 
 
+add("C01", "X-int-expr-left-type", "fixed",
+    "Signal v = 4 + 3 + in3 was carried on a fresh implicit signal instead of in3's signal-X (folded Int OP Int came back as an implicit constant signal)",
+    case01([S("in3", "signal-X", 0), Decl("Signal", "v3", Bin("+", Bin("+", Num(4), Num(3)), Ref("in3")))], [{"in3": 34652}, {"in3": -2}]),
+    commit="7b61e08")
+add("C01", "X-const-cond-typed-expr", "fixed",
+    "(a != -12) : ((\"copper-plate\", 9) < 10 : ((\"iron-plate\", 28) OR (\"signal-Z\", 6))) lost the iron-plate type (only a plain typed literal kept it)",
+    case01([S("a", "signal-A", 5), Decl("Signal", "v", Cond(Bin("!=", Ref("a"), Num(-12)),
+            Paren(Cond(Bin("<", SigLit("copper-plate", Num(9)), Num(10)), Paren(Bin("OR", SigLit("iron-plate", Num(28)), SigLit("signal-Z", Num(6))))))))],
+           [{"a": 5}, {"a": -12}]), commit="f913abc")
+
+
+add("C03", "X-value-carrying-enable", "fixed",
+    "m.write(v, when=(e2 > 19) : e1) never wrote: the enable's copy-count decider was retyped to signal-W in place and read signal-W from its own input",
+    {"prog": Program((S("d1", "signal-C", 0), S("e1", "copper-plate", 0), S("e2", "signal-A", 0), MemDecl("m1", "signal-1"),
+                      Write("m1", Proj(Ref("d1"), "signal-1"), Cond(Bin(">", Ref("e2"), Num(19)), Ref("e1"))),
+                      Decl("Signal", "r2", MemRead("m1")))),
+     "hist": [["d1", 7], ["e1", 1], ["e2", 20], ["d1", 9], ["e2", 0], ["d1", 4]], **OPT}, commit="f6718d2")
+
+
 def main():
     import importlib
 
